@@ -13,6 +13,17 @@ import operator
 from typing import Any, Callable, Dict, Optional
 
 
+DEFAULT_REPO = None
+_OWNERS = {}
+
+
+def _owner_of(fn):
+    if not _OWNERS and DEFAULT_REPO is not None:
+        for mod, ci, f in DEFAULT_REPO.all_functions():
+            _OWNERS[id(f)] = (mod, ci)
+    return _OWNERS.get(id(fn))
+
+
 class Unsupported(Exception):
     pass
 
@@ -326,6 +337,18 @@ class Interp:
             raise Unsupported(type(st).__name__)
 
     def call(self, fn: ast.AST):
+        # Default for every rule: calls of the owning class's own methods and of module-level repository functions are followed (unless the
+        # rule's call_hook answers first), so that a rule interprets the same behaviour before and after a helper is extracted.
+        if DEFAULT_REPO is not None and getattr(self, 'auto', None) is None and isinstance(self, NumInterp):
+            owner = _owner_of(fn)
+            if owner is not None:
+                mod, ci = owner
+                meths = None
+                if ci is not None:
+                    meths = {}
+                    for c in reversed(DEFAULT_REPO.mro(ci)):
+                        meths.update(c.methods)
+                self.auto = (meths, _module_resolver(DEFAULT_REPO, mod, fn))
         try:
             self.run_block([s for s in fn.body])
         except _Return as r:
@@ -368,6 +391,26 @@ class NumInterp(Interp):
                          'isinstance': isinstance, 'map': map, 'repr': repr}
 
     def ev(self, n):
+        auto = getattr(self, 'auto', None)
+        if auto is None or not isinstance(n, ast.Call) or getattr(self, '_retrying', False):
+            return self._ev_inner(n)
+        try:
+            return self._ev_inner(n)
+        except Unsupported as first:
+            # fallback only: what the rule's hooks and the closed vocabulary cannot evaluate is retried by following the call into the
+            # owning class's own methods / the module-level repository function it names
+            saved = (getattr(self, 'methods', None), getattr(self, 'resolver', None))
+            self.methods, self.resolver = saved[0] or auto[0], saved[1] or auto[1]
+            self._retrying = True
+            try:
+                return self._ev_inner(n)
+            except Unsupported:
+                raise first
+            finally:
+                self._retrying = False
+                self.methods, self.resolver = saved
+
+    def _ev_inner(self, n):
         if isinstance(n, ast.Name) and n.id not in self.env and n.id in getattr(self, 'globals', {}):
             return self.globals[n.id]          # module-level names the rule models (shared with the interpreters of followed helpers)
         if isinstance(n, ast.Name) and n.id not in self.env and n.id in self.builtins:
@@ -486,6 +529,8 @@ class NumInterp(Interp):
                 sub = NumInterp(env, call_hook=self.call_hook, attr_hook=self.attr_hook)
                 sub.resolver = getattr(self, 'resolver', None)
                 sub.methods = meths
+                if getattr(self, '_retrying', False):
+                    sub.auto, sub.methods, sub.resolver = self.auto, None, None
                 sub.globals = getattr(self, 'globals', {})
                 sub.builtins = self.builtins
                 sub.depth = getattr(self, 'depth', 0) + 1
@@ -517,6 +562,8 @@ class NumInterp(Interp):
                     sub = NumInterp(env, call_hook=self.call_hook, attr_hook=self.attr_hook)
                     sub.resolver = self.resolver
                     sub.methods = getattr(self, 'methods', None)
+                    if getattr(self, '_retrying', False):
+                        sub.auto, sub.methods, sub.resolver = self.auto, None, None
                     sub.globals = getattr(self, 'globals', {})
                     sub.depth = getattr(self, 'depth', 0) + 1
                     return sub.call(fnode)
@@ -608,3 +655,46 @@ class NumInterp(Interp):
                 raise Unsupported(f'store {ast.unparse(t)}: {e}')
             return
         super().store(t, v)
+
+
+def _module_resolver(repo, mod, fn):
+    from .core import FuncInfo
+
+    def resolve(call):
+        f = call.func
+        d = None
+        if isinstance(f, ast.Name):
+            d = f.id
+        elif isinstance(f, ast.Attribute):
+            parts = []
+            x = f
+            while isinstance(x, ast.Attribute):
+                parts.append(x.attr)
+                x = x.value
+            if isinstance(x, ast.Name):
+                d = '.'.join([x.id] + parts[::-1])
+        if not d:
+            return None
+        r = repo.resolve_in_func(mod, fn, d)
+        if isinstance(r, FuncInfo) and r.cls is None and isinstance(r.node, ast.FunctionDef):
+            return r.node
+        return None
+    return resolve
+
+
+def follow_module(it, repo, mod, fn):
+    if getattr(it, 'resolver', None) is None:
+        it.resolver = _module_resolver(repo, mod, fn)
+    return it
+
+
+def follow(it, repo, ci, fn):
+    """Let the interpreter `it` (created for method `fn` of class `ci`) follow calls of the class's own methods and of module-level
+    repository functions instead of giving up on them, so that extracting a helper does not change what a rule can interpret."""
+    it.methods = {}
+    for c in reversed(repo.mro(ci)):
+        it.methods.update(c.methods)
+
+    if getattr(it, 'resolver', None) is None:
+        it.resolver = _module_resolver(repo, ci.mod, fn)
+    return it
